@@ -1,6 +1,11 @@
 package main
 
 import (
+	"bytes"
+	"encoding/json"
+	"strings"
+	"encoding/base64"
+	"sort"
 	"fmt"
 
 	"github.com/lidofinance/dc4bc/fsm/types/requests"
@@ -48,6 +53,78 @@ func junkAt(w *World, round string, now int64, thorough bool) []Item {
 	out = append(out, w.RawMsg("round-unknown-xyz", "event_dkg_commit_confirm_received", []byte(`{"ParticipantId":0}`), u[1], "", u[1], now, "unknown-round"))
 	out = append(out, w.RawMsg("ab", "event_sig_proposal_confirm_by_participant", []byte(`{"ParticipantId":0}`), "stranger", "", "", now, "short-round-id"))
 	out = append(out, w.RawMsg("", "event_sig_proposal_init", []byte(`{}`), u[1], "", u[1], now, "empty-round-id"))
+	return out
+}
+
+
+// junkOpen: hostile opening proposals and reinitialisation messages. Neither kind is
+// signature-checked (they carry the keys), so anybody who can write to the board can post them.
+// Each entry is a short sequence; the check applies to every item of it.
+func junkOpen(w *World, me string) map[string][]Item {
+	u := w.Users
+	now := int64(NOWMARK)
+	out := map[string][]Item{}
+	ts := `"CreatedAt":"2023-11-14T22:13:20Z"`
+	part := func(name string, keyLen int) string {
+		key := bytes.Repeat([]byte{7}, keyLen)
+		return fmt.Sprintf(`{"Username":%q,"PubKey":%q,"DkgPubKey":%q}`, name, base64.StdEncoding.EncodeToString(key), base64.StdEncoding.EncodeToString([]byte("dkgpubkey--x")))
+	}
+	initRaw := func(label, round, body string) Item {
+		return w.RawMsg(round, "event_sig_proposal_init", []byte(body), u[1], "", u[1], now, label)
+	}
+	single := map[string]string{
+		"init-participants-null-entries": `{"Participants":[null,null],"SigningThreshold":2,` + ts + `}`,
+		"init-participants-one-null":     `{"Participants":[` + part("user0", 32) + `,null],"SigningThreshold":2,` + ts + `}`,
+		"init-participants-null":         `{"Participants":null,"SigningThreshold":2,` + ts + `}`,
+		"init-participants-empty":        `{"Participants":[],"SigningThreshold":0,` + ts + `}`,
+		"init-threshold-zero":            `{"Participants":[` + part("user0", 32) + `,` + part("user1", 32) + `],"SigningThreshold":0,` + ts + `}`,
+		"init-threshold-negative":        `{"Participants":[` + part("user0", 32) + `,` + part("user1", 32) + `],"SigningThreshold":-1,` + ts + `}`,
+		"init-threshold-above-n":         `{"Participants":[` + part("user0", 32) + `,` + part("user1", 32) + `],"SigningThreshold":3,` + ts + `}`,
+		"init-duplicate-usernames":       `{"Participants":[` + part("user0", 32) + `,` + part("user0", 32) + `],"SigningThreshold":2,` + ts + `}`,
+		"init-empty-username":            `{"Participants":[` + part("", 32) + `,` + part("user1", 32) + `],"SigningThreshold":2,` + ts + `}`,
+		"init-key-too-short":             `{"Participants":[` + part("user0", 5) + `,` + part("user1", 32) + `],"SigningThreshold":2,` + ts + `}`,
+		"init-no-created-at":             `{"Participants":[` + part("user0", 32) + `,` + part("user1", 32) + `],"SigningThreshold":2}`,
+		"init-json-null":                 `null`,
+		"init-json-array":                `[]`,
+		"init-bad-json":                  `{"Participants":[`,
+		"init-type-confusion":            `{"Participants":{"a":1},"SigningThreshold":"two",` + ts + `}`,
+	}
+	for label, body := range single {
+		out[label] = []Item{initRaw(label, "round-c18-open-"+label, body)}
+	}
+	// a proposal that registers a communication key of an impossible length is accepted (the
+	// minimum is 10 bytes); the next message in that participant's name must be refused, not crash
+	for _, kl := range []int{10, 31, 33, 64} {
+		label := fmt.Sprintf("init-key-length-%d-then-message", kl)
+		round := "round-c18-open-" + label
+		body := `{"Participants":[` + part(me, 32) + `,` + part("user-oddkey", kl) + `],"SigningThreshold":2,` + ts + `}`
+		follow := w.RawMsg(round, "event_sig_proposal_confirm_by_participant", []byte(`{"ParticipantId":1,"CreatedAt":"2023-11-14T22:13:30Z"}`), "user-oddkey", "", u[1], now, label+"/follow")
+		out[label] = []Item{initRaw(label, round, body), follow}
+	}
+	// reinitialisation messages
+	rawReinit := func(label, body string) Item { return w.ReinitItem("carrier-"+label, nil, []byte(body), label) }
+	for label, body := range map[string]string{
+		"reinit-empty-id":          `{"dkg_id":"","threshold":2,"participants":[],"messages":[]}`,
+		"reinit-blank-id":          `{"dkg_id":" ","threshold":2,"participants":[],"messages":[]}`,
+		"reinit-tab-id":            `{"dkg_id":"\t\n","threshold":2,"participants":null,"messages":null}`,
+		"reinit-json-null":         `null`,
+		"reinit-json-array":        `[1]`,
+		"reinit-bad-json":          `{"dkg_id":`,
+		"reinit-type-confusion":    `{"dkg_id":5,"threshold":"x"}`,
+		"reinit-null-lists":        `{"dkg_id":"round-c18-reinit-nl","threshold":2,"participants":null,"messages":null}`,
+		"reinit-embedded-junk":     `{"dkg_id":"round-c18-reinit-ej","threshold":2,"participants":[],"messages":[{"dkg_round_id":"round-c18-reinit-ej","event":"event_bogus","data":null},{"dkg_round_id":"round-c18-reinit-ej","event":"event_sig_proposal_init","data":"bnVsbA=="},{"dkg_round_id":"round-c18-reinit-ej","event":"event_sig_proposal_init","data":"eyJQYXJ0aWNpcGFudHMiOltudWxsXSwiU2lnbmluZ1RocmVzaG9sZCI6MX0="}]}`,
+	} {
+		out[label] = []Item{rawReinit(label, body)}
+	}
+	// a reinitialisation that installs a communication key of an impossible length, then a message
+	// in that participant's name
+	{
+		label := "reinit-key-length-5-then-message"
+		round := "round-c18-reinit-kl"
+		body := fmt.Sprintf(`{"dkg_id":%q,"threshold":2,"participants":[{"dkg_pub_key":"AA==","old_comm_pub_key":"AA==","new_comm_pub_key":"BwcHBwc=","name":"user-oddkey"}],"messages":[]}`, round)
+		follow := w.RawMsg(round, "event_sig_proposal_confirm_by_participant", []byte(`{"ParticipantId":0,"CreatedAt":"2023-11-14T22:13:30Z"}`), "user-oddkey", "", u[1], now, label+"/follow")
+		out[label] = []Item{rawReinit(label, body), follow}
+	}
 	return out
 }
 
@@ -108,6 +185,79 @@ func scenarioC18(c *Ctx) {
 			}
 		}})
 	}
+	// hostile opening proposals and reinitialisation messages, on a fresh node and next to a live round
+	open := junkOpen(w, me)
+	var openLabels []string
+	for l := range open {
+		openLabels = append(openLabels, l)
+	}
+	sort.Strings(openLabels)
+	for _, prefixLen := range []int{0, 5} {
+		for _, label := range openLabels {
+			seq := open[label]
+			for upto := 1; upto <= len(seq); upto++ {
+				items := append(append([]Item{}, h[:prefixLen]...), seq[:upto]...)
+				label, pl := seq[upto-1].Label, prefixLen
+				cases = append(cases, HistCase{Kind: "open-" + label, User: me, Items: items, Check: func(o RunObs) {
+					last := o.Classes[len(o.Classes)-1]
+					if last == "panic" {
+						c.Fail(Failure{Property: "C18", Kind: "node-panic", Signature: map[string]interface{}{"kind": "node-panic", "input": label},
+							What: "a board message crashes the node: " + label, Replay: map[string]interface{}{"after_messages_of_a_live_round": pl, "input": label}})
+					}
+					if last == "err" && o.Before != o.After {
+						c.Fail(Failure{Property: "C18", Kind: "rejected-input-changed-state", Signature: map[string]interface{}{"kind": "rejected-input-changed-state", "input": label},
+							What:   fmt.Sprintf("a rejected board message (%s) changed the node's durable state", label),
+							Replay: map[string]interface{}{"after_messages_of_a_live_round": pl, "input": label, "before": o.Before, "after": o.After}})
+					}
+				}})
+			}
+		}
+	}
 	runCases(c, cases)
 	c.Notes["histories"] = len(cases)
+	// timestamps at the edge of what JSON can carry (years 0 and 9999; the deadline added to the
+	// latter is not representable): oracle only - the model's clock is an unbounded integer.
+	// Whatever the node answers, it must not crash and every round it holds must stay decodable.
+	ext := 0
+	for _, stamp := range []string{"9999-12-31T23:59:59Z", "9999-12-25T00:00:00Z", "0000-01-01T00:00:00Z", "0001-01-01T00:00:01Z"} {
+		type step struct {
+			prefix int
+			it     Item
+		}
+		initBody := fmt.Sprintf(`{"Participants":[{"Username":%q,"PubKey":%q,"DkgPubKey":"ZGtncHVia2V5LS14"},{"Username":"user-x","PubKey":%q,"DkgPubKey":"ZGtncHVia2V5LS14"}],"SigningThreshold":2,"CreatedAt":%q}`,
+			me, base64.StdEncoding.EncodeToString(w.Keys[me].Pub), base64.StdEncoding.EncodeToString(w.Keys[w.Users[1]].Pub), stamp)
+		steps := []step{{0, w.RawMsg("round-c18-time-"+stamp, "event_sig_proposal_init", []byte(initBody), w.Users[1], "", w.Users[1], NOWMARK, "init-created-at-"+stamp)}}
+		for k, ev := range map[int]string{1: "event_sig_proposal_confirm_by_participant", 4: "event_dkg_commit_confirm_received", 7: "event_dkg_deal_confirm_received",
+			10: "event_dkg_response_confirm_received", 13: "event_dkg_master_key_confirm_received", 16: "event_signing_start", 17: "event_signing_partial_sign_received"} {
+			var raw map[string]interface{}
+			if json.Unmarshal(h[k].In.Msg.Data, &raw) != nil {
+				continue
+			}
+			raw["CreatedAt"] = stamp
+			data, _ := json.Marshal(raw)
+			sender := h[k].In.Msg.SenderAddr
+			steps = append(steps, step{k, w.RawMsg(round, ev, data, sender, h[k].In.Msg.RecipientAddr, sender, NOWMARK, ev+"-created-at-"+stamp)})
+		}
+		for _, st := range steps {
+			e := NewNodeEnv(newEnvDir(c), me)
+			for _, it := range h[:st.prefix] {
+				applyItem(e, it)
+			}
+			cl := applyItem(e, st.it)
+			snap := e.Snapshot()
+			e.Close()
+			ext++
+			label := st.it.Label
+			if cl == "panic" {
+				c.Fail(Failure{Property: "C18", Kind: "node-panic", Signature: map[string]interface{}{"kind": "node-panic", "input": label},
+					What: "a board message crashes the node: " + label, Replay: map[string]interface{}{"position": st.prefix, "input": label}})
+			}
+			if strings.Contains(snap, "undecodable") {
+				c.Fail(Failure{Property: "C18", Kind: "undecodable-round-persisted", Signature: map[string]interface{}{"kind": "undecodable-round-persisted"},
+					What:   fmt.Sprintf("after the board message %s (answered %q) the node holds a round that cannot be decoded any more", label, cl),
+					Replay: map[string]interface{}{"position": st.prefix, "input": label, "after": snap}})
+			}
+		}
+	}
+	c.Notes["extreme_timestamp_inputs"] = ext
 }
